@@ -32,6 +32,13 @@ func (d *Dumper) Name(named gengotypes.TypeName) string {
 	return d.namer.Name(named)
 }
 
+// pathNamer names a type by the full path of its package, it registers nothing
+type pathNamer struct{}
+
+func (pathNamer) Name(named gengotypes.TypeName) string {
+	return named.Pkg().Path() + "." + named.Name()
+}
+
 func (d *Dumper) ReflectTypeLit(tpe reflect.Type) string {
 	return d.TypeLit(typesutil.FromRType(tpe))
 }
@@ -198,10 +205,29 @@ func (d *Dumper) ValueLit(in any, optFns ...ValueLitOptFn) string {
 		keyLits := make([]string, 0)
 		keyValues := map[string]reflect.Value{}
 
+		// the namer hands out import names first come, first served, so the keys are rendered
+		// in an order which does not depend on map iteration: the order of their literals
+		// under a namer which registers nothing
+		type orderedKey struct {
+			plain string
+			key   reflect.Value
+		}
+
+		plain := &Dumper{namer: pathNamer{}}
+
+		keys := make([]orderedKey, 0, rv.Len())
 		for _, key := range rv.MapKeys() {
-			k := d.ValueLit(key, append(optFns, SubValue(false))...)
+			keys = append(keys, orderedKey{plain: plain.ValueLit(key), key: key})
+		}
+
+		sort.SliceStable(keys, func(i, j int) bool {
+			return keys[i].plain < keys[j].plain
+		})
+
+		for _, x := range keys {
+			k := d.ValueLit(x.key, append(optFns, SubValue(false))...)
 			keyLits = append(keyLits, k)
-			keyValues[k] = rv.MapIndex(key)
+			keyValues[k] = rv.MapIndex(x.key)
 		}
 
 		sort.Strings(keyLits)
